@@ -309,6 +309,7 @@ class StoreDriver(object):
             return str(k in s)
         if op["op"] == "reload":
             path = os.path.join(self.work, "store.ini")
+            open(path, "a").close()
             s.write(path)
             self.store = I.InputStore(path, dict(self.specs))
             return "None"
